@@ -33,6 +33,18 @@ CHECKS = {
    note="trusted: python bytes semantics as reference; results for negative/oversized positions are only required to be a BLOC error or a contiguous part "
         "of the input (manual is one line per builtin); known findings: num(str(d))/isnum(str(d)) for subnormal d",
    design="4/C10"),
+ "C09": dict(
+   technique="model-based runtime monitor: random container-operation sequences checked against a python list model + structural uniformity invariant on deep dumps + ASan/UBSan",
+   text="Random sequences (8-25 steps) of at/put/insert/delete/concat/count on tables of integer, decimal, string, boolean, integer tables and "
+        "tuples, @/set@/count on tuples and at/delete on strings/bytes are executed by the real interpreter with argument values of every class "
+        "(matching, typed null, int/decimal mixable, untyped null, mismatching scalar/table/tuple, directly and through an opaque function so the "
+        "run-time checks are reached) and positions from {-1,0,1,n-1,n,n+1,2^31,2^32,2^32+1,INT64_MAX,INT64_MIN,null}; after every step the deep "
+        "dump of all containers is compared with the model (exact content when accepted, unchanged when rejected, index error required for "
+        "out-of-range/null positions) and checked for uniformity. forall loops whose body tries to change the iterated table (16 mutators x 3 "
+        "nestings x 4 tables), writes through the iterator (every argument class) and the tab/tup constructors are enumerated.",
+   note="trusted: the python model; int/decimal mixing and untyped-null stores may be accepted or rejected (manual silent) but an accepted one must "
+        "store the converted / typed-null element; table equality is not asserted",
+   design="4/C09"),
 }
 
 NOT_YET = "check not built yet in this round (see DESIGN.md section 4 for the planned runtime monitor)"
